@@ -28,7 +28,7 @@ T="skipped"
 if [ "${SEED_SKIP_TESTS:-0}" != 1 ]; then VERIF_REPO=$WT /verif/tools/baseline.sh >/tmp/demo_$ID.tests 2>&1; T=$?; fi
 RES=""
 for p in $PROPS; do
-  VERIF_OUT=/tmp/seedout_$ID VERIF_REPO=$WT /verif/check $p --tier ${SEED_TIER:-quick} >/tmp/demo_$ID.check 2>&1; rc=$?
+  VERIF_OUT=/tmp/seedout_$ID VERIF_REPO=$WT ${VERIF_CHECK:-/verif/check} $p --tier ${SEED_TIER:-quick} >/tmp/demo_$ID.check 2>&1; rc=$?
   nv=$(grep -c '^VIOLATION' /tmp/demo_$ID.check)
   RES="$RES $p:rc=$rc,viol=$nv"
 done
